@@ -727,8 +727,8 @@ class TypeBlocks(ContainerOperand):
 
         else: # both defined
             assert columns_ic is not None and index_ic is not None
-            if not columns_ic.has_common and not index_ic.has_common:
-                # return an empty frame
+            if not columns_ic.has_common or not index_ic.has_common:
+                # no cell is retained if either axis has nothing in common: return an empty frame
                 shape = index_ic.size, columns_ic.size
                 values = full_for_fill(None, shape, fill_value)
                 values.flags.writeable = False
